@@ -54,7 +54,8 @@ def proof_stage(pid, tier):
     pins = re.findall(r"^\s*Check\s+([A-Za-z0-9_']+)\s*:", src, re.M)
     res["theorems"] = thms
     res["obligations"] = len(thms)
-    unpinned = [t for t in thms if t not in pins]
+    need_pin = re.findall(r"^\s*(?:Theorem|Corollary)\s+([A-Za-z0-9_']+)", src, re.M)
+    unpinned = [t for t in need_pin if t not in pins]
     # forbidden words anywhere in the development
     bad = []
     for f in glob.glob(os.path.join(COQ, "**", "*.v"), recursive=True):
@@ -91,7 +92,7 @@ def proof_stage(pid, tier):
     res["axioms"] = sorted(set(axioms))
     printed = closed + len(re.findall(r"^Axioms:", out, re.M))
     npa = len(re.findall(r"^\s*Print\s+Assumptions\s+", src, re.M))
-    if npa < len([t for t in thms if not t.startswith("ex_")]):
+    if npa < len(need_pin):
         res["detail"] = "Print Assumptions missing under some theorem"
         return res
     notallowed = [a for a in res["axioms"] if a not in AXIOM_ALLOW]
